@@ -93,6 +93,18 @@ func RunComplete(conf core.Config, patterns ...string) *core.Result {
 					case *ast.AssignStmt:
 						for _, l := range x.Lhs {
 							e := ast.Unparen(l)
+							// *recv = T{…} (re)initialises every field
+							if st, ok := e.(*ast.StarExpr); ok {
+								if id, ok := ast.Unparen(st.X).(*ast.Ident); ok && core.ObjOf(info, id) == ro {
+									if stt, ok := tn.Type().Underlying().(*types.Struct); ok {
+										for i := 0; i < stt.NumFields(); i++ {
+											if _, dup := out[stt.Field(i).Name()]; !dup {
+												out[stt.Field(i).Name()] = x
+											}
+										}
+									}
+								}
+							}
 							// recv.f = …, recv.f[i] = … is an update of existing state, not a (re)initialisation
 							if sel, ok := e.(*ast.SelectorExpr); ok {
 								if id, ok := ast.Unparen(sel.X).(*ast.Ident); ok && core.ObjOf(info, id) == ro {
